@@ -293,14 +293,13 @@ Section Table.
     let ncolon := length (filter is_colon ts) in
     match ncolon with
     | O =>
-      match ts with
-      | [] | [_] => ROk (SelRaw ts)
-      | _ => match m_parse_one led_err ts with
-             | ROk (x, []) => ROk (SelIdx x)
-             | ROk (_, _ :: _) => ROk (SelRaw ts)
-             | RFuel => RFuel | RUnsup => RUnsup | RErr => RErr | RCrash => RCrash
-             end
-      end
+      (* if len(tokens) <= 1 { return tokens unparsed }  (constant read by the translator) *)
+      if Nat.leb (length ts) (sel_raw_max K) then ROk (SelRaw ts)
+      else match m_parse_one led_err ts with
+           | ROk (x, []) => ROk (SelIdx x)
+           | ROk (_, _ :: _) => ROk (SelRaw ts)
+           | RFuel => RFuel | RUnsup => RUnsup | RErr => RErr | RCrash => RCrash
+           end
     | S O =>
       let p := split_at_colon ts in
       match parse_segment led_err (fst p) with
